@@ -211,6 +211,29 @@ class Mon:
             self.rec.nt(("preemph", module.coeff, len(xn), str(xn.dtype)))
 
 
+def _tview(rng, t, p=0.25):
+    """the same tensor values as a view into other storage, with probability p: a slice of a longer tensor (storage
+    offset), every other element of a longer tensor, or one column of a matrix (non-unit stride)"""
+    import torch
+
+    if t.ndim != 1 or t.numel() == 0 or rng.random() >= p:
+        return t
+    n = t.numel()
+    lay = int(rng.integers(3))
+    if lay == 0:
+        k = int(rng.integers(1, 50))
+        big = torch.full((n + k + 7,), 7.0, dtype=t.dtype)
+        v = big[k:k + n]
+    elif lay == 1:
+        big = torch.full((2 * n,), 7.0, dtype=t.dtype)
+        v = big[::2]
+    else:
+        big = torch.full((n, 3), 7.0, dtype=t.dtype)
+        v = big[:, 1]
+    v.copy_(t)
+    return v
+
+
 def run_case(case, rec, mon=None):
     import torch
     from pydrobert.speech import torch as T, pre as PRE, post as POST
@@ -248,7 +271,7 @@ def run_case(case, rec, mon=None):
                     x = gen.signal(rng, N, None, np.float32 if (prec == "f32" and rng.random() < 0.5) else np.float64)
                     with torch.no_grad():
                         try:
-                            mod(torch.from_numpy(x))
+                            mod(_tview(rng, torch.from_numpy(x)))
                         except Exception as e:
                             if N >= fl or N < fl // 2 + 1:
                                 try:
@@ -298,7 +321,7 @@ def run_case(case, rec, mon=None):
         for _ in range(case["n"]):
             n = int(rng.choice([0, 1, 2, 5, int(rng.integers(6, 400))]))
             dt = torch.float32 if rng.random() < 0.5 else torch.float64
-            x = torch.from_numpy(gen.signal(rng, n, None)).to(dt)
+            x = _tview(rng, torch.from_numpy(gen.signal(rng, n, None)).to(dt))
             T.PyTorchPreemphasize.from_preemphasize(PRE.Preemphasize(float(rng.choice([0.97, 0.0, 1.0, float(rng.uniform(-1, 1))]))))(x)
             frames, F = int(rng.integers(1, 40)), int(rng.integers(1, 8))
             feats = torch.from_numpy(rng.standard_normal((frames, F)) * 3 + 1).to(dt)
@@ -330,7 +353,7 @@ def run_case(case, rec, mon=None):
             mod = T.PyTorchSIFrameComputer.from_si_frame_computer(comp)
             for N in (0, 1, comp.frame_length, width + 3, 2 * width + 1):
                 for dt in (torch.float32, torch.float64):
-                    x = torch.from_numpy(gen.signal(rng, N, None)).to(dt)
+                    x = _tview(rng, torch.from_numpy(gen.signal(rng, N, None)).to(dt))
                     try:
                         mod(x)
                     except Exception as e:
